@@ -49,6 +49,19 @@ def run_case(case):
             d, info = nd.Hessdiag(F, method=method, order=arg, full_output=True)(np.array(x0))
             H, hinfo = nd.Hessian(F, method=method if method != 'central2' else 'central', full_output=True)(np.array(x0))
             return ('ok', np.asarray(d).tolist(), np.asarray(info.error_estimate).tolist(), np.diag(H).tolist(), np.diag(np.atleast_2d(hinfo.error_estimate)).tolist())
+        if mode == 'hessdiag-complexf':
+            d = nd.Hessdiag(lambda z: F(z) * (1.0 + 0.5j), method=method, order=arg)(np.array(x0))
+            return ('ok', [np.real(d).tolist(), np.imag(d).tolist()], None)
+        if mode == 'hessdiag-sharedgen':
+            # one user generator instance handed to Hessdiag objects of increasing order: each must return what it returns with a generator of its own
+            from numdifftools.step_generators import MinStepGenerator
+            shared = MinStepGenerator()
+            same = []
+            for o_ in (2, 4, 6, 2):
+                a_ = nd.Hessdiag(F, method=method, order=o_, step=shared)(np.array(x0))
+                b_ = nd.Hessdiag(F, method=method, order=o_, step=MinStepGenerator())(np.array(x0))
+                same.append(bool(np.array_equal(np.asarray(a_), np.asarray(b_), equal_nan=True)))
+            return ('ok', same, None)
         if mode == 'history':
             # one object: call, move the point IN PLACE, call with other extra arguments, call again at x0
             G = lambda z, s=1.0, t=0.0: F(z) * s * (1.0 + t)       # BOTH extra arguments change the Hessian (keyword t: factor 1 + t)
@@ -128,6 +141,9 @@ def run(tier, rep):
             extra = ['hess-plain', 'hess-step', 'hess-len1', 'history', 'history']
             if method not in ('complex', 'multicomplex'):
                 extra.append('hess-complexf')
+                cases.append((ri, method, 'hessdiag-complexf', rnd.choice([2, 4, 6])))
+            if method != 'central2':
+                cases.append((ri, method, 'hessdiag-sharedgen', None))
             for mode in (extra if tier != 'quick' else rnd.sample(extra, 3)):
                 arg = (rnd.choice(['Hessian', 'Hessdiag']), rnd.random() < 0.5) if mode == 'history' else None
                 cases.append((ri, method, mode, arg))
@@ -182,6 +198,18 @@ def run(tier, rep):
         elif mode == 'hess-complexf':
             check_matrix(o[1][0], 'real part of the Hessian of a complex-valued f')
             check_matrix(o[1][1], 'imaginary part of the Hessian of a complex-valued f', w=want * 0.5)
+        elif mode == 'hessdiag-sharedgen':
+            if not all(o[1]):
+                rep.violation('history:sharedgen:%s' % method, dict(case=name, same_as_own_generator=o[1]),
+                              '%s: Hessdiag objects of orders 2, 4, 6, 2 sharing ONE MinStepGenerator() differ from the same objects with a generator of their own (call %d)' % (name, o[1].index(False) + 1))
+        elif mode == 'hessdiag-complexf':
+            dt = tol_for(method, quad) * sc * ENV['hessian']['hessdiag_factor'] if quad else tol2('hessdiag6' if arg == 6 else 'hessdiag')
+            for part, fac, lab in ((0, 1.0, 'real'), (1, 0.5, 'imaginary')):
+                dd_ = np.array(o[1][part])
+                if dd_.shape != (n,) or not (np.abs(dd_ - fac * np.diag(want)) <= dt).all():
+                    rep.violation('entry:hessdiag-complexf:%s' % method, dict(case=name, part=lab, got=dd_.tolist(), want=(fac * np.diag(want)).tolist(), tol=dt),
+                                  '%s: %s part of the Hessdiag of a complex-valued f is %s, exact %s' % (name, lab, dd_.tolist(), (fac * np.diag(want)).tolist()))
+                    break
         elif mode == 'hessdiag':
             d, est, hd, hest = np.array(o[1]), np.array(o[2]), np.array(o[3]), np.array(o[4])
             if d.shape != (n,):
